@@ -70,6 +70,7 @@ fn main() {
         std::process::exit(2);
     }
     let code = match args[0].as_str() {
+        "C10" => dispatch(props::c10::C10, &args),
         "C13" => dispatch(props::c13::C13, &args),
         "C14" => dispatch(props::c14::C14, &args),
         "C17" => dispatch(props::c17::C17, &args),
